@@ -1,0 +1,13 @@
+//go:build verif
+
+package p2p
+
+// VerifMaxUntrustedHeadRequests exposes maxUntrustedHeadRequests to the verification harness.
+func VerifMaxUntrustedHeadRequests() int { return maxUntrustedHeadRequests }
+
+// VerifSetMaxUntrustedHeadRequests sets maxUntrustedHeadRequests and returns the previous value.
+func VerifSetMaxUntrustedHeadRequests(n int) int {
+	old := maxUntrustedHeadRequests
+	maxUntrustedHeadRequests = n
+	return old
+}
